@@ -33,10 +33,14 @@ type C18Case struct {
 	Kind   string   `json:"kind"`
 	Data   string   `json:"data_b64,omitempty"` // codec: base64 of the bytes
 	EncID  string   `json:"encoding_id,omitempty"`
+	// handler-callback: how the stored request wants its reply delivered ("" body, "post", "redirect") and whether the user has
+	// several hundred group values on top (replies too long for any redirect length limit)
+	Delivery string `json:"delivery,omitempty"`
+	Big      bool   `json:"big,omitempty"`
 	Values []string `json:"values,omitempty"`
 }
 
-var c18Kinds = []string{"codec", "encoding-id", "response", "response", "logout-response", "soap", "metadata", "authn-request", "logout-request", "handler-callback", "handler-sso-error", "handler-logout-error"}
+var c18Kinds = []string{"codec", "encoding-id", "response", "response", "logout-response", "soap", "metadata", "authn-request", "logout-request", "handler-callback", "handler-sso-error", "handler-logout-error", "endpoint-encoding-id"}
 
 func genBytes(t *rapid.T) []byte {
 	switch rapid.IntRange(0, 5).Draw(t, "bytekind") {
@@ -83,7 +87,15 @@ func genC18Case(t *rapid.T) C18Case {
 	case "encoding-id":
 		c.Data = base64.StdEncoding.EncodeToString([]byte(xt.AnyString(8).Draw(t, "payload")))
 		c.EncID = rapid.SampledFrom(c18EncodingIDs).Draw(t, "encid")
+	case "endpoint-encoding-id":
+		c.EncID = rapid.SampledFrom(c18EncodingIDs).Draw(t, "encid")
+		c.Delivery = rapid.SampledFrom([]string{"sso-post", "sso-redirect", "slo-post", "slo-redirect"}).Draw(t, "endpoint")
+		c.Big = rapid.Bool().Draw(t, "deflated") // whether the payload sent is a DEFLATE stream
 	default:
+		if c.Kind == "handler-callback" {
+			c.Delivery = rapid.SampledFrom([]string{"", "post", "redirect", "redirect"}).Draw(t, "delivery")
+			c.Big = rapid.IntRange(0, 2).Draw(t, "big") == 0
+		}
 		legalOnly := rapid.IntRange(0, 2).Draw(t, "legalonly") == 0
 		// one case in five: long values dense in multi-byte characters, so that the document spans several output buffers
 		// and characters fall across their boundaries at many alignments
@@ -342,9 +354,20 @@ func c18Handler(c C18Case) []*ev.Violation {
 		case "handler-callback":
 			u := world.UserSpec{UserID: "uid-x", LoginName: "l", Email: tk.next(), FullName: tk.next(), GivenName: tk.next(), Surname: tk.next(), Username: tk.next(), UserIDAttr: tk.next(),
 				Custom: []world.CustomAttr{{Name: "c1" + tk.next(), FriendlyName: tk.next(), NameFormat: tk.next(), Values: []string{tk.next(), tk.next()}}}}
+			if c.Big {
+				// in the same attribute: the order in which several custom attributes are emitted is not defined
+				u.Custom[0].Values = append(u.Custom[0].Values, bigValues(600, "c18")...)
+			}
 			spec.Users = append(spec.Users, u)
 			spec.Apps = map[string]string{"app-x": "aud" + tk.next()}
-			spec.Requests = []world.RequestSpec{{ID: "c18", AppID: "app-x", RelayState: tk.next(), ACS: "", Binding: world.BindPost, AuthRequestID: tk.next(), UserID: "uid-x", Done: true}}
+			acsURL, binding := "", world.BindPost
+			switch c.Delivery {
+			case "post":
+				acsURL = "https://sp.example/acs"
+			case "redirect":
+				acsURL, binding = "https://sp.example/acs", world.BindRedirect
+			}
+			spec.Requests = []world.RequestSpec{{ID: "c18", AppID: "app-x", RelayState: tk.next(), ACS: acsURL, Binding: binding, AuthRequestID: tk.next(), UserID: "uid-x", Done: true}}
 			return spec, callbackReq(spec.IdP, "c18")
 		case "handler-sso-error":
 			a := spsim.NewAuthnReq("id"+stripIllegal(tk.next()), spec.SPs[0].EntityID)
@@ -469,6 +492,41 @@ func c18Run(c C18Case) []*ev.Violation {
 			if !known && (err == nil || len(out) > 0) {
 				return []*ev.Violation{ev.V("C18/unknown-encoding-passed-through", "encoding identifier %q: err=%v, %d bytes returned", c.EncID, err, len(out))}
 			}
+		}
+	case "endpoint-encoding-id":
+		// the same clause at the endpoints: a request that names an encoding the IdP does not know is refused, whatever the payload
+		spec := stdSpec()
+		w := mustBuild(spec)
+		var x []byte
+		route := spec.IdP.Route("sso")
+		if strings.HasPrefix(c.Delivery, "sso") {
+			x = xt.Write(spsim.NewAuthnReq("_c18enc", spec.SPs[0].EntityID).Tree(plainStyle), plainStyle.W)
+		} else {
+			route = spec.IdP.Route("slo")
+			x = xt.Write(spsim.NewLogoutReq("_c18enc", spec.SPs[0].EntityID, "usermark0").Tree(plainStyle), plainStyle.W)
+		}
+		if c.Big {
+			x = spsim.Deflate(x)
+		}
+		msg := qesc(base64.StdEncoding.EncodeToString(x))
+		params := "SAMLRequest=" + msg + "&RelayState=rs&SAMLEncoding=" + qesc(c.EncID)
+		hr := obs.HTTPReq{Method: "GET", Path: route, RawQuery: params}
+		if strings.HasSuffix(c.Delivery, "post") {
+			hr = obs.HTTPReq{Method: "POST", Path: route, ContentType: "application/x-www-form-urlencoded", Body: params}
+		}
+		rep := obs.Do(w.Handler, hr)
+		if rep.Panic != "" {
+			return []*ev.Violation{ev.V("C18/panic", "handler panicked: %s", short(rep.Panic, 100))}
+		}
+		known := c.EncID == "" || c.EncID == sxml.EncodingDeflate
+		accepted := len(w.Store.CallsOf("CreateAuthRequest")) > 0
+		if d := obs.Decode(rep); d.Doc != nil {
+			if r := obs.ReadResponse(obs.FindResponse(d.Root())); r != nil && r.Success() {
+				accepted = true
+			}
+		}
+		if !known && accepted {
+			return []*ev.Violation{ev.V("C18/unknown-encoding-passed-through", "%s request with SAMLEncoding=%q was accepted", c.Delivery, c.EncID)}
 		}
 	case "handler-callback", "handler-sso-error", "handler-logout-error":
 		return c18Handler(c)
